@@ -43,9 +43,9 @@ func split(s string) []string {
 var sigma0 = append(split("aeuU-\\0.+/*\"'\n (){}[];:!#@%<>,?=|é"), "\t")
 
 func (c *check) Init(tier string, seed int64) engine.Space {
-	full, f9, f8, ctl := 4, 6, 6, 4
+	full, f9, f8, cm, ctl := 4, 6, 6, 6, 4
 	if tier == "thorough" {
-		full, f9, f8, ctl = 5, 7, 8, 5
+		full, f9, f8, cm, ctl = 5, 7, 8, 7, 5
 	}
 	c.ms = engine.MultiStr{Batch: 1024, Spaces: []*engine.StrSpace{
 		{Name: "full", Alphabet: sigma0, MaxLen: full},
@@ -53,7 +53,7 @@ func (c *check) Init(tier string, seed int64) engine.Space {
 		{Name: "hexescapes", Alphabet: []string{"\\", "0", "00", "1", "d8", "f", " ", "g", "\n"}, MaxLen: f9},
 		{Name: "numbers", Alphabet: split("0.eE+-%a1"), MaxLen: f9},
 		{Name: "urls", Alphabet: []string{"url(", ")", "(", " ", "\"", "\\", "a", "\n", "'"}, MaxLen: f9},
-		{Name: "comments", Alphabet: split("/*(){a\n\""), MaxLen: f8},
+		{Name: "comments", Alphabet: split("/*(){a\n\""), MaxLen: cm},
 		{Name: "blocks", Alphabet: split("()[]{}a;"), MaxLen: f8},
 		{Name: "declarations", Alphabet: []string{"a", ":", ";", "!", "important", "{", "}", " ", "/**/"}, MaxLen: f9},
 		{Name: "atcdo", Alphabet: split("@a;{}<!->"), MaxLen: f9},
@@ -101,10 +101,10 @@ var featureTags = []string{
 	"bad-url:backslash-newline", "bad-url:escaped-backslash-before-paren", "bad-escape", "escape-at-eof", "eof-in-block", "unmatched-close",
 }
 
-func features(tags map[string]bool, extra ...string) []string {
+func features(tags *tagset, extra ...string) []string {
 	var out []string
 	for _, t := range featureTags {
-		if tags[t] {
+		if tags.has(t) {
 			out = append(out, t)
 		}
 	}
@@ -171,7 +171,7 @@ type caseCtx struct {
 	ctx  reporter
 	cnt  counters
 	desc string
-	tags map[string]bool
+	tags *tagset
 }
 
 func (cc *caseCtx) fail(clause, entry, want, got string, extra ...string) {
@@ -181,8 +181,7 @@ func (cc *caseCtx) fail(clause, entry, want, got string, extra ...string) {
 
 // compareTokens checks one token list against the reference list (already stripped of comments
 // when the implementation was asked to skip them).
-func (cc *caseCtx) compareTokens(clause, entry string, impl []pa.Token, ref []*node) bool {
-	want := listStr(ref, true)
+func (cc *caseCtx) compareTokens(clause, entry string, impl []pa.Token, ref []*node, want string) bool {
 	got := cssn.List(impl, optKeep)
 	cc.cnt["tokens-compared"]++
 	if want != got {
@@ -199,10 +198,10 @@ func (cc *caseCtx) compareTokens(clause, entry string, impl []pa.Token, ref []*n
 	}
 	if r.posDiff != "" {
 		var ex []string
-		if cc.tags["nonascii"] {
+		if cc.tags.has("nonascii") {
 			ex = append(ex, "nonascii")
 		}
-		if cc.tags["nul"] {
+		if cc.tags.has("nul") {
 			ex = append(ex, "nul")
 		}
 		cc.ctx.Fail(engine.Failure{Clause: positionsClause(clause), Features: features(cc.tags, ex...), Case: cc.desc + " as " + entry, Detail: r.posDiff})
@@ -286,25 +285,38 @@ func declFeatures(l []*node, split bool) []string {
 				custom = true
 			}
 		}
-		bangs, curly := 0, false
+		bangs, curly, leadingCurly, onlyBangs, any := 0, false, false, true, false
 		for _, n := range seg[colon+1:] {
+			if isBlank(n) {
+				continue
+			}
 			switch {
 			case isLit(n, "!"):
 				bangs++
-				if curly {
+				if leadingCurly {
 					afterCurly = true
 				}
 			case n.k == nCurly:
-				if curly {
+				if leadingCurly {
 					afterCurly = true
 				}
-				if bangs > 0 && !curly {
-					bangBeforeCurly = true
+				if !curly {
+					if !any {
+						leadingCurly = true
+					} else if onlyBangs && bangs > 0 {
+						bangBeforeCurly = true
+					}
 				}
 				curly = true
-			case !isBlank(n) && curly:
-				afterCurly = true
+			default:
+				if !(n.k == nIdent && lower(n.val) == "important") {
+					onlyBangs = false
+				}
+				if leadingCurly {
+					afterCurly = true
+				}
 			}
+			any = true
 		}
 		if bangs >= 2 {
 			severalBangs = true
@@ -315,10 +327,10 @@ func declFeatures(l []*node, split bool) []string {
 		out = append(out, "several-bangs")
 	}
 	if bangBeforeCurly {
-		out = append(out, "bang-before-curly-block")
+		out = append(out, "only-bang-before-curly-block")
 	}
 	if afterCurly {
-		out = append(out, "value-after-curly-block")
+		out = append(out, "value-after-leading-curly-block")
 	}
 	if custom {
 		out = append(out, "custom-property-name")
@@ -386,13 +398,13 @@ func (c *check) one(ctx reporter, cnt counters, space, x string) {
 		r.toksS = pa.Tokenize(bx, true)
 		stage = "ParseStylesheetBytes"
 		r.sheet = pa.ParseStylesheetBytes(bx, false, false)
-		r.sheetS = pa.ParseStylesheetBytes(bx, true, true)
+		r.sheetS = pa.ParseStylesheet(r.toksS, true, true) // what ParseStylesheetBytes(…, true, true) does after tokenizing
 		stage = "ParseRuleList"
 		r.rules = pa.ParseRuleList(r.toks, false, false)
 		r.rulesS = pa.ParseRuleList(r.toksS, true, true)
 		stage = "ParseDeclarationListString"
 		r.decls = pa.ParseDeclarationListString(x, false, false)
-		r.declsS = pa.ParseDeclarationListString(x, true, true)
+		r.declsS = pa.ParseDeclarationList(r.toksS, true, true)
 		stage = "ParseBlocksContentsString"
 		r.blocks = pa.ParseBlocksContentsString(x)
 		r.blocksS = pa.ParseBlocksContents(r.toksS, true)
@@ -416,21 +428,22 @@ func (c *check) one(ctx reporter, cnt counters, space, x string) {
 	}
 
 	// (1) tokens
-	cc.compareTokens("tokens", "Tokenize", r.toks, ref)
-	cc.compareTokens("tokens", "Tokenize(skipComments)", r.toksS, refS)
+	refStr := listStr(ref, true)
+	cc.compareTokens("tokens", "Tokenize", r.toks, ref, refStr)
+	cc.compareTokens("tokens", "Tokenize(skipComments)", r.toksS, refS, listStr(refS, true))
 
 	// (2) rules and declarations; the reference algorithms run on the implementation's values
 	nk, ns := fromImpl(r.toks), fromImpl(r.toksS)
 	df, df1 := declFeatures(nk, true), declFeatures(nk, false)
 	sheet := consumeRuleList(nk, true, false, false)
 	cc.compareItems("stylesheet", "ParseStylesheetBytes(false,false)", r.sheet, sheet)
-	cc.compareItems("stylesheet", "ParseStylesheetBytes(true,true)", r.sheetS, consumeRuleList(ns, true, true, true))
+	cc.compareItems("stylesheet", "ParseStylesheet(skipComments tokens,true,true)", r.sheetS, consumeRuleList(ns, true, true, true))
 	rules := consumeRuleList(nk, false, false, false)
 	cc.compareItems("rule-list", "ParseRuleList(false,false)", r.rules, rules)
 	cc.compareItems("rule-list", "ParseRuleList(true,true)", r.rulesS, consumeRuleList(ns, false, true, true))
 	decls := consumeDeclarationList(nk, false, false)
 	cc.compareItems("declaration-list", "ParseDeclarationListString(false,false)", r.decls, decls, df...)
-	cc.compareItems("declaration-list", "ParseDeclarationListString(true,true)", r.declsS, consumeDeclarationList(ns, true, true), df...)
+	cc.compareItems("declaration-list", "ParseDeclarationList(skipComments tokens,true,true)", r.declsS, consumeDeclarationList(ns, true, true), df...)
 	blocks := consumeBlocksContents(nk, false)
 	cc.compareItems("blocks-contents", "ParseBlocksContentsString", dropBlankAfterDeclImpl(r.blocks), dropBlankAfterDeclRef(blocks), df...)
 	cc.compareItems("blocks-contents", "ParseBlocksContents(skipComments tokens,true)", dropBlankAfterDeclImpl(r.blocksS), dropBlankAfterDeclRef(consumeBlocksContents(ns, true)), df...)
@@ -499,7 +512,7 @@ func (c *check) one(ctx reporter, cnt counters, space, x string) {
 		c.sentinel(cc, x, " g")
 	}
 
-	ctx.Case(len(ref) > 0, listStr(ref, true)+"|"+nthKey)
+	ctx.Case(len(ref) > 0, refStr+"|"+nthKey)
 }
 
 // lastIs reports whether the last entry of l is the sentinel construct, intact.
@@ -523,13 +536,15 @@ func (c *check) sentinel(cc *caseCtx, x, s string) {
 		toks = pa.Tokenize(by, false)
 		switch s {
 		case ";b:c":
-			stage = "ParseDeclarationListString"
-			a = pa.ParseDeclarationListString(y, false, false)
-			stage = "ParseBlocksContentsString"
-			b = pa.ParseBlocksContentsString(y)
+			// the String/Bytes entry points only tokenize first (parser.go); the token variants
+			// are used here to tokenize each sentinel input once
+			stage = "ParseDeclarationList"
+			a = pa.ParseDeclarationList(toks, false, false)
+			stage = "ParseBlocksContents"
+			b = pa.ParseBlocksContents(toks, false)
 		case "}d{e:f}":
-			stage = "ParseStylesheetBytes"
-			a = pa.ParseStylesheetBytes(by, false, false)
+			stage = "ParseStylesheet"
+			a = pa.ParseStylesheet(toks, false, false)
 			stage = "ParseRuleList"
 			b = pa.ParseRuleList(toks, false, false)
 		}
@@ -542,7 +557,7 @@ func (c *check) sentinel(cc *caseCtx, x, s string) {
 		return
 	}
 	cc.cnt["sentinel-runs"]++
-	sc.compareTokens("recovery-tokens", "Tokenize", toks, ref)
+	sc.compareTokens("recovery-tokens", "Tokenize", toks, ref, listStr(ref, true))
 	nk := fromImpl(toks)
 	df := declFeatures(nk, true)
 	switch s {
@@ -555,8 +570,8 @@ func (c *check) sentinel(cc *caseCtx, x, s string) {
 		} else {
 			cc.cnt["reach:sentinel-declaration-absorbed-by-spec"]++
 		}
-		sc.compareItems("recovery-declarations", "ParseDeclarationListString(false,false)", a, ra, df...)
-		sc.compareItems("recovery-declarations", "ParseBlocksContentsString", dropBlankAfterDeclImpl(b), dropBlankAfterDeclRef(rb), df...)
+		sc.compareItems("recovery-declarations", "ParseDeclarationList(false,false)", a, ra, df...)
+		sc.compareItems("recovery-declarations", "ParseBlocksContents", dropBlankAfterDeclImpl(b), dropBlankAfterDeclRef(rb), df...)
 	case "}d{e:f}":
 		const intact = "qrule[ident(\"d\") ]{ident(\"e\") lit(\":\") ident(\"f\") }\n"
 		ra := consumeRuleList(nk, true, false, false)
@@ -566,7 +581,7 @@ func (c *check) sentinel(cc *caseCtx, x, s string) {
 		} else {
 			cc.cnt["reach:sentinel-rule-absorbed-by-spec"]++
 		}
-		sc.compareItems("recovery-rules", "ParseStylesheetBytes(false,false)", a, ra)
+		sc.compareItems("recovery-rules", "ParseStylesheet(false,false)", a, ra)
 		sc.compareItems("recovery-rules", "ParseRuleList(false,false)", b, rb)
 	default:
 		if n := len(ref); n >= 2 && ref[n-1].k == nIdent && ref[n-1].val == "g" && ref[n-2].k == nWS {
